@@ -14,7 +14,7 @@ import random
 from ..common import work_dir, cleanup, seed_from_env, MachineryError
 
 KEYS = ("tid", "seq", "ev", "tok", "val", "chld", "anc", "links", "outcome", "exc", "date_kind", "expect_ok", "recomputed",
-        "n_values_to_recompute", "all_ups_active", "date_hour", "hourly_input_changed", "timeline_shifted")
+        "n_values_to_recompute", "all_ups_active", "date_hour", "hourly_input_changed", "timeline_shifted", "period_refusal")
 
 
 def model_cfg(structural):
